@@ -13,7 +13,7 @@ def run(ver):
     binp = core.cargo_build("vh")
     for vals, maxlen, maxpend, maxerr, maxsyncs, only in CONFIGS[ver.tier]:
         tag = f"mc_c16_{vals}_{maxlen}_{maxpend}_{maxerr}_{maxsyncs}_{only}"
-        res = core.run_tlc("MC_C16", "MC_C16.cfg", wd, tag=tag, timeout=3000,
+        res = core.run_tlc("MC_C16", "MC_C16.cfg", wd, tag=tag, timeout=3000, coverage=True,
                            consts={"Vals": "<- " + vals, "MaxLen": str(maxlen), "MaxPend": str(maxpend), "MaxErr": str(maxerr),
                                    "MaxSyncs": str(maxsyncs), "OnlyCompliant": only})
         core.tlc_failure(res, tag)
